@@ -37,6 +37,14 @@ Definition re_digits_optletter_ci (letters s : list Z) : option (list Z * list Z
 
 Definition py_is_some {A} (o : option A) : bool := match o with Some _ => true | None => false end.
 
+(* re.match("^[a-zA-Z]:", s) (no flags): only whether it matched is kept *)
+Definition re_is_ascii_alpha (c : Z) : bool := ((65 <=? c) && (c <=? 90)) || ((97 <=? c) && (c <=? 122)).
+Definition re_match_alpha_colon (s : list Z) : option unit :=
+  match s with
+  | c0 :: c1 :: _ => if re_is_ascii_alpha c0 && (c1 =? 58) then Some tt else None
+  | _ => None
+  end.
+
 (* int(s) for s a non-empty string of ASCII digits: ValueError beyond sys.get_int_max_str_digits() = 4300
    characters.  Any other string is OUTSIDE what this primitive models (int() accepts signs, blanks,
    underscores, other Unicode digits): the result is then Err EUnsupported, and the theorems about generated
